@@ -57,6 +57,8 @@ def run_one(args):
     repo = base + '/repo'
     os.makedirs(base, exist_ok=True)
     sh('rsync -a --delete --exclude target --exclude .git /repo/ %s/' % repo)
+    # same path for every mutant of a slot: give every source file a fresh mtime, otherwise cargo keeps objects built from the previous mutant
+    sh('find %s -name "*.rs" -exec touch {} +' % repo)
     p = os.path.join(repo, m['file'])
     lines = open(p).read().split('\n')
     if lines[m['line'] - 1] != m['old']:
